@@ -484,6 +484,10 @@ def small_model(ctx, pc, claim, fs_list, infoA, w):
         extra.append(z3.ULE(sym(f"{fs.name}#{FV.index('Header')}.2.boxed.2", BV64), 256))
     if infoA and 'body_size' in infoA:
         extra += [z3.ULE(infoA['body_size'], 256)]
+    # the native world starts with 8 bytes (one heartbeat frame) of earlier, unwritten data: prefer the same amount in the model
+    r, m, _ = ctx.solve(list(pc) + extra + [sym('outbuf.len0', BV64) == 8, z3.Not(claim)])
+    if r == 'sat':
+        return m
     r, m, _ = ctx.solve(list(pc) + extra + [z3.Not(claim)])
     if r == 'sat':
         return m
